@@ -57,7 +57,8 @@ def _sgn(v):
 
 
 class Point:
-    def __init__(self, rng, int_bounds=None, squares=True, given=None):
+    def __init__(self, rng, int_bounds=None, squares=True, given=None, integers=False):
+        self.integers = integers
         self.rng = rng
         self.vals = {}
         self.ints = {}
@@ -70,6 +71,8 @@ class Point:
         if v is None:
             if name in self.given:
                 v = Fraction(self.given[name])
+            elif self.integers:
+                v = Fraction(self.rng.randint(1, 12) * (1 if self.rng.random() < 0.7 else -1))
             else:
                 a = self.rng.randint(2, 40)
                 b = self.rng.randint(1, 9)
@@ -206,7 +209,7 @@ def evaluate(n, pt, memo=None):
     return memo[n]
 
 
-def identical(pairs, seed=1, points=4, int_bounds=None, given=None, squares=True):
+def identical(pairs, seed=1, points=4, int_bounds=None, given=None, squares=True, integers=False):
     """pairs: list of (label, nodeA, nodeB).  Returns (ok, first_difference) where
     first_difference = (label, point, valueA, valueB).  Raises NeedSymbolic."""
     rng = random.Random(seed)
@@ -214,7 +217,7 @@ def identical(pairs, seed=1, points=4, int_bounds=None, given=None, squares=True
     tries = 0
     while done < points and tries < points * 20:
         tries += 1
-        pt = Point(rng, int_bounds, squares, given)
+        pt = Point(rng, int_bounds, squares, given, integers)
         memo = {}
         try:
             vals = [(lab, evaluate(a, pt, memo), evaluate(b, pt, memo)) for lab, a, b in pairs]
